@@ -46,7 +46,7 @@ func newSnapshot(lastFrame int) (*cptvframe.Frame, error) {
 	if processor == nil {
 		return nil, errors.New("reading from camera has not started yet")
 	}
-	if lastFrame >= 0 && uint32(lastFrame) == processor.CurrentFrame {
+	if lastFrame >= 0 && uint32(lastFrame) == processor.FrameCount() {
 		return nil, errors.New("no new frames yet")
 	}
 
@@ -69,15 +69,21 @@ func newSnapshotRecording() error {
 		return errors.New("reading from camera has not started yet")
 	}
 
-	processor.StartSnapshot = true
+	processor.RequestSnapshot()
 	return nil
+}
+
+func processorStarted() bool {
+	mu.Lock()
+	defer mu.Unlock()
+	return processor != nil
 }
 
 // snapshotRecordingTriggers will make a snapshot when in the recording window and at the end of the recording window.
 func snapshotRecordingTriggers(window window.Window) {
 
 	// Wait for motion processor to start
-	for processor == nil {
+	for !processorStarted() {
 		time.Sleep(time.Second)
 	}
 
